@@ -87,7 +87,7 @@ func init() {
 		}})
 
 	register(&PropSpec{ID: "C03",
-		Explain:     "Decides that a strict list-mode hunk can only commit behind its checks: (R-FWD, all roles) before/after context, old/new values and strategy reach the array they belong to at any depth; (R-PATCHRESULT) the error and the result of every nested patch are consumed; (R-EXPECT) in every patch implementation a list-mode diff can reach, every success return is cut off from entry by the successful comparison of old value / removed elements / before and after context, and the failing side of each comparison only returns errors.",
+		Explain:     "Decides that a strict list-mode hunk can only commit behind its checks: (R-FWD, all roles) before/after context, old/new values and strategy reach the array they belong to at any depth; (R-PATCHRESULT) the error and the result of every nested patch are consumed; (R-EXPECT) in every patch implementation a list-mode diff can reach, every success return is cut off from entry by the successful comparison of old value / removed elements / before and after context, and the failing side of each comparison only returns errors. (R-EQSIZE) the object and list Equals, which walk one operand only, compare both lengths on every path to a non-false result — a strict hunk compares removed values and context with Equals, so containment instead of equality lets mismatching targets through. Context checks extracted into helper methods are verified inside the helper and accepted through the caller's err == nil edge.",
 		NotDecided:  "That the compared position is the adjacent element (index arithmetic), that only what the hunks say is changed (in-place aliasing of the target), behaviour for the -1 append index.",
 		Assumptions: commonAssumptions,
 		Run: func(w *World, r *Report) {
@@ -104,7 +104,7 @@ func init() {
 		}})
 
 	register(&PropSpec{ID: "C04",
-		Explain:     "Decides structural necessary conditions of Equals: (R-TYPEGUARD) every Equals can answer anything but false only after a successful assertion that the (dispatched) argument has the receiver's own type; (R-HASHDOM) hash inputs of different node types are domain-separated by a constant 8-byte tag, pairwise distinct — necessary because SET/MULTISET equality compares digests; (R-HASHCOVER) each digest depends on everything the type's Equals compares; (R-OPTFWD, Equals side) nested comparisons receive the caller's options.",
+		Explain:     "Decides structural necessary conditions of Equals: (R-TYPEGUARD) every Equals can answer anything but false only after a successful assertion that the (dispatched) argument has the receiver's own type; (R-HASHDOM) hash inputs of different node types are domain-separated by a constant 8-byte tag, pairwise distinct — necessary because SET/MULTISET equality compares digests; (R-HASHCOVER) each digest depends on everything the type's Equals compares; (R-OPTFWD, Equals side) nested comparisons receive the caller's options. (R-DISPATCH) the option -> container table extracted from dispatch is SET and SetKeys -> set, MULTISET -> multiset, none -> list; (R-EQSIZE) one-sided container comparisons compare both lengths.",
 		NotDecided:  "64-bit digest collisions within a type, precision arithmetic, reflexivity/symmetry on concrete values.",
 		Assumptions: commonAssumptions,
 		Run: func(w *World, r *Report) {
@@ -204,7 +204,7 @@ func runCLI(w *World, r *Report, parts ...string) {
 
 func init() {
 	register(&PropSpec{ID: "C14",
-		Explain:     "Decides the command-line contract as control- and data-flow facts of both `package main`s (v2/jd and the top-level binary, incl. its -v2=false routines): E every os.Exit argument is a constant 0/1/2, exit 1 lies exactly on the edge where the diff routine's boolean is true and the other edge exits 0, every error returned by any call reaches a nil test whose failing side exits 2 (or is returned), the exit helpers always exit 2; D the diff routine's boolean is true exactly on the edges `rendered output != the library's empty rendering` and the library returns those sentinels for an empty diff; O in every print routine one value is printed with fmt.Print when -o is empty and written with WriteFile(*output, []byte(s)) otherwise, nothing else reaches stdout, and that value is exactly what Render/RenderPatch/RenderMerge/Json/Yaml returned; F the flag→option table; I readFile/readStdin return the bytes read untransformed and can only fail on a read error, FILE1/FILE2/stdin reach the documented parameters; M for every documented value of -f and -t exactly the documented reader/renderer is reachable and any other value is an error, -yaml selects the document codec; P FILE1→diff reader, FILE2→document reader, Diff(a,b) order; options given to the CLI are the options handed to the library (R-OPTFWD(cli)).",
+		Explain:     "Decides the command-line contract as control- and data-flow facts of both `package main`s (v2/jd and the top-level binary, incl. its -v2=false routines): E every os.Exit argument is a constant 0/1/2, exit 1 lies exactly on the edge where the diff routine's boolean is true and the other edge exits 0, every error returned by any call reaches a nil test whose failing side exits 2 (or is returned), the exit helpers always exit 2; D the diff routine's boolean is true exactly on the edges `rendered output != the library's empty rendering` and the library returns those sentinels for an empty diff; O in every print routine one value is printed with fmt.Print when -o is empty and written with WriteFile(*output, []byte(s)) otherwise, nothing else reaches stdout, and that value is exactly what Render/RenderPatch/RenderMerge/Json/Yaml returned; F the flag→option table; I readFile/readStdin return the bytes read untransformed and can only fail on a read error, FILE1/FILE2/stdin reach the documented parameters; M for every documented value of -f and -t exactly the documented reader/renderer is reachable and any other value is an error, -yaml selects the document codec; P FILE1→diff reader, FILE2→document reader, Diff(a,b) order; options given to the CLI are the options handed to the library (R-OPTFWD(cli)). V (top-level binary): with -v2=false every reachable library call goes into package lib, otherwise into v2, and no option slice handed on from main is the zero value on a feasible flag combination.",
 		NotDecided:  "That `jd -p` of the output reproduces b (that is C01/C02 behaviour), YAML content fidelity, the GitHub-action wrapper and the git diff driver protocol (exempt by name).",
 		Assumptions: commonAssumptions,
 		Run: func(w *World, r *Report) {
@@ -218,7 +218,7 @@ func init() {
 
 func init() {
 	register(&PropSpec{ID: "C05",
-		Explain:     "Decides structural necessary conditions of `Diff is empty iff Equals`: (R-OPTFWD, diff side) every comparison a diff function makes — Equals, hashCode, ident, dispatch, nested diff — receives the caller's own options, so Diff decides under the options Equals is asked about; (R-CONGRUENCE) an option kind consulted by a type's Equals is consulted by its hashCode, because list diff matches elements by hashCode; (R-HASHDOM restricted to the scalar types that can be list elements) hash inputs carry a type tag, else two unequal elements are matched as common; (R-NOEMPTY) accumulated hunks are emitted only if non-empty and the scalar diff returns the empty diff exactly on the Equals-true edge; CLI half: exit status 1 lies exactly on the edge where the diff routine reports a difference, that boolean is `rendered output != the library's empty rendering`, the sentinels agree with the library, and the CLI hands its options to Diff unchanged.",
+		Explain:     "Decides structural necessary conditions of `Diff is empty iff Equals`: (R-OPTFWD, diff side) every comparison a diff function makes — Equals, hashCode, ident, dispatch, nested diff — receives the caller's own options, so Diff decides under the options Equals is asked about; (R-CONGRUENCE) an option kind consulted by a type's Equals is consulted by its hashCode, because list diff matches elements by hashCode; (R-HASHDOM restricted to the scalar types that can be list elements) hash inputs carry a type tag, else two unequal elements are matched as common; (R-NOEMPTY) accumulated hunks are emitted only if non-empty and the scalar diff returns the empty diff exactly on the Equals-true edge; CLI half: exit status 1 lies exactly on the edge where the diff routine reports a difference, that boolean is `rendered output != the library's empty rendering`, the sentinels agree with the library, and the CLI hands its options to Diff unchanged. (R-EQSIZE) one-sided container comparisons compare both lengths.",
 		NotDecided:  "Whether a non-empty merge diff can render as the sentinel {} (it can: `1` vs `{}`), how tolerance and hashing could be made to agree, digest collisions.",
 		Assumptions: commonAssumptions,
 		Run: func(w *World, r *Report) {
@@ -239,7 +239,7 @@ func init() {
 
 func init() {
 	register(&PropSpec{ID: "C08",
-		Explain:     "Decides that set / multiset / keyed-member hunks can only commit behind their expectations: (R-EXPECT) in jsonSet.patch and jsonMultiset.patch every success return that is not a forwarded nested result lies behind the loop over the removed members, every way round that loop passes the lookup hit and a successful Equals of the found member (multiset: the count-underflow schema), every other way out only returns errors, and the whole-value base case lies behind a successful Equals; (R-PATCHRESULT) the outcome of the nested patch of a keyed member is consumed; (R-FWD) the keyed member receives the caller's expectations; (R-KINDS) the path kinds a set/multiset diff emits are the kinds its patch accepts; (R-IDENTUSE) identity hashing (ident/pathIdent) is used only by set diff/patch, never by Equals/hashCode.",
+		Explain:     "Decides that set / multiset / keyed-member hunks can only commit behind their expectations: (R-EXPECT) in jsonSet.patch and jsonMultiset.patch every success return that is not a forwarded nested result lies behind the loop over the removed members, every way round that loop passes the lookup hit and a successful Equals of the found member (multiset: the count-underflow schema), every other way out only returns errors, and the whole-value base case lies behind a successful Equals; (R-PATCHRESULT) the outcome of the nested patch of a keyed member is consumed; (R-FWD) the keyed member receives the caller's expectations; (R-KINDS) the path kinds a set/multiset diff emits are the kinds its patch accepts; (R-IDENTUSE) identity hashing (ident/pathIdent) is used only by set diff/patch, never by Equals/hashCode. (R-KEYBIND) every digest compared to select the keyed member contains each looked-up key as data on the paths feasible for the options passed; (R-IDENTPROV) every value entering a member identity is loaded from the member; (R-SEARCHALL) the member search is not cut short.",
 		NotDecided:  "Order independence and `other members untouched` on concrete values, non-array targets of set paths (a set hunk applied to a scalar replaces it), digest collisions.",
 		Assumptions: commonAssumptions,
 		Run: func(w *World, r *Report) {
@@ -264,7 +264,7 @@ var v2Prov = map[string]string{"Remove": "a", "Add": "b", "Before": "b", "After"
 
 func init() {
 	register(&PropSpec{ID: "C07",
-		Explain:     "Decides structural necessary conditions of `every hunk is a real difference`: (R-NOEMPTY) an accumulated set/multiset hunk is emitted only behind a test that it removes or adds something, and the scalar diff returns the empty diff exactly on the Equals-true edge; (R-SETMEMBER) the set diff lists a member only on the miss edge of its lookup among the other side's members; (R-PROV) what a hunk removes is drawn from the receiver side only, what it adds from the argument side only; (R-PATHFRESH) a hunk owns its path, so it keeps addressing the location it was made for.",
+		Explain:     "Decides structural necessary conditions of `every hunk is a real difference`: (R-NOEMPTY) an accumulated set/multiset hunk is emitted only behind a test that it removes or adds something, and the scalar diff returns the empty diff exactly on the Equals-true edge; (R-SETMEMBER) the set diff lists a member only on the miss edge of its lookup among the other side's members; (R-PROV) what a hunk removes is drawn from the receiver side only, what it adds from the argument side only; (R-PATHFRESH) a hunk owns its path, so it keeps addressing the location it was made for. (R-BAGCOUNT) the number of copies the multiset diff lists derives from the multiplicities on both sides.",
 		NotDecided:  "That what a hunk removes differs from what it adds, leave-one-out redundancy, the list diff's discarding of an empty accumulator (closure over a mutable cell), multiset surplus counts (sign test on a count difference).",
 		Assumptions: commonAssumptions,
 		Run: func(w *World, r *Report) {
@@ -304,7 +304,7 @@ func init() {
 
 func init() {
 	register(&PropSpec{ID: "C16",
-		Explain:     "Decides the structural part of JSON/YAML interchangeability: (R-YAMLTYPES) NewJsonNode has an arm for every dynamic type yaml.v2 v2.4.0 and encoding/json can put into an interface{} (map[interface{}]interface{}, map[string]interface{}, []interface{}, string, bool, int, int64, uint64, float64, nil) and each scalar arm yields the matching node type (a string stays a string, whatever it looks like); (R-CODEC) ReadJson* decode with json.Unmarshal and ReadYaml* with yaml.Unmarshal through the same unmarshal()+NewJsonNode path, Json() reaches only json.Marshal and Yaml() only yaml.Marshal (named exceptions: null renders through JSON, void renders as the empty string); (R-JSONCODEC) no other entry point of either codec is used anywhere in the library.",
+		Explain:     "Decides the structural part of JSON/YAML interchangeability: (R-YAMLTYPES) NewJsonNode has an arm for every dynamic type yaml.v2 v2.4.0 and encoding/json can put into an interface{} (map[interface{}]interface{}, map[string]interface{}, []interface{}, string, bool, int, int64, uint64, float64, nil) and each scalar arm yields the matching node type (a string stays a string, whatever it looks like); (R-CODEC) ReadJson* decode with json.Unmarshal and ReadYaml* with yaml.Unmarshal through the same unmarshal()+NewJsonNode path, Json() reaches only json.Marshal and Yaml() only yaml.Marshal (named exceptions: null renders through JSON, void renders as the empty string); (R-JSONCODEC) no other entry point of either codec is used anywhere in the library. (R-RAWINPUT) between Read{Json,Yaml}{String,File} and the decoder the input bytes are only converted, never trimmed or re-sliced.",
 		NotDecided:  "Quoting of ambiguous scalars by yaml.v2, float formatting, key types — behaviour of the two codec libraries on run-time values.",
 		Assumptions: commonAssumptions,
 		Run: func(w *World, r *Report) {
@@ -323,7 +323,7 @@ func init() {
 
 func init() {
 	register(&PropSpec{ID: "C09",
-		Explain:     "Decides structural necessary conditions of the RFC 6902 rendering: (R-PTR) writePointer writes a token for every path element or returns an error, every object key reaches the pointer only through jsonpointer.Escape, number-like keys and the key \"-\" are refused before they could be written, set/multiset path elements are refused; (R-PAIR) the only ops emitted are test, remove, add and every remove is emitted right after a test of the same pointer and value; (R-REVADD) all adds of one hunk target one pointer, so the hunk's Add list is traversed backwards (RFC 6902 add inserts before).",
+		Explain:     "Decides structural necessary conditions of the RFC 6902 rendering: (R-PTR) writePointer writes a token for every path element or returns an error, every object key reaches the pointer only through jsonpointer.Escape, number-like keys and the key \"-\" are refused before they could be written, set/multiset path elements are refused; (R-PAIR) the only ops emitted are test, remove, add and every remove is emitted right after a test of the same pointer and value; (R-REVADD) all adds of one hunk target one pointer, so the hunk's Add list is traversed backwards (RFC 6902 add inserts before). (R-CTXINDEX) every computed path index in RenderPatch equals index-1 (before context) or index+len(Remove) (after context) as a linear form, phis evaluated edge by edge under guard facts; (R-PURE) RenderPatch does not write into the diff it renders.",
 		NotDecided:  "Equivalence with an RFC 6902 evaluator: op order across hunks, the index arithmetic of the context tests.",
 		Assumptions: commonAssumptions,
 		Run: func(w *World, r *Report) {
@@ -337,7 +337,7 @@ func init() {
 			r.Floor("R-PTR", 6)
 		}})
 	register(&PropSpec{ID: "C10",
-		Explain:     "Decides structural necessary conditions of `never more permissive than RFC 6902`: (R-OPSUBSET) the reader's op vocabulary is exactly add/remove/test, a test commits only if the next op is a remove of the same pointer with an equal value (each failing side only returns errors), any other op only reaches error returns; (R-PARENT) a test op is consumed as list context only after its pointer was related to the edit's pointer beyond the last index (same array); (R-PTRREAD) pointer tokens are decoded, \"-\" maps to -1, digits to indices; (R-PREPEND) a coalesced add is placed in front of those already collected; (R-FWD on before/after) the context the reader records reaches the array it belongs to at any depth.",
+		Explain:     "Decides structural necessary conditions of `never more permissive than RFC 6902`: (R-OPSUBSET) the reader's op vocabulary is exactly add/remove/test, a test commits only if the next op is a remove of the same pointer with an equal value (each failing side only returns errors), any other op only reaches error returns; (R-PARENT) a test op is consumed as list context only after its pointer was related to the edit's pointer beyond the last index (same array); (R-PTRREAD) pointer tokens are decoded, \"-\" maps to -1, digits to indices; (R-PREPEND) a coalesced add is placed in front of those already collected; (R-FWD on before/after) the context the reader records reaches the array it belongs to at any depth. (R-CTXINDEX) the writer whose output the reader must reproduce addresses index-1 / index+len(Remove).",
 		NotDecided:  "The full index case analysis of the context inference (which of up to three ops are context for every op sequence).",
 		Assumptions: commonAssumptions,
 		Run: func(w *World, r *Report) {
@@ -355,7 +355,7 @@ func init() {
 			r.Floor("R-FWD", 25)
 		}})
 	register(&PropSpec{ID: "C11",
-		Explain:     "Decides structural necessary conditions of the RFC 7386 rendering: (R-MERGEHUNK, diff side) every hunk a diff function builds on a path that is control-dependent on merge strategy carries Metadata.Merge and removes nothing; RenderMerge refuses hunks without the flag, turns every void addition into null in the diff it patches into the empty (void) document, and renders that document.",
+		Explain:     "Decides structural necessary conditions of the RFC 7386 rendering: (R-MERGEHUNK, diff side) every hunk a diff function builds on a path that is control-dependent on merge strategy carries Metadata.Merge and removes nothing; RenderMerge refuses hunks without the flag, turns every void addition into null in the diff it patches into the empty (void) document, and renders that document. (R-VOIDARG) no nested diff is handed the void marker as the other side (nodeList(void) is empty, the deletion would be lost) and the deletion marker is a literal Add: [void].",
 		NotDecided:  "Agreement of the rendered document with the RFC 7386 algorithm on concrete values.",
 		Assumptions: commonAssumptions,
 		Run: func(w *World, r *Report) {
@@ -368,7 +368,7 @@ func init() {
 			ruleWholeObject(w, r, v2, "v2", "Add")
 		}})
 	register(&PropSpec{ID: "C12",
-		Explain:     "Decides structural necessary conditions of reading RFC 7386: (R-MERGEHUNK, reader side) every hunk readMergeInto builds carries Metadata.Merge, a null becomes a void addition (delete), and patchAll selects merge strategy exactly for hunks with the flag (R-FWD driver), so the leaf patch replaces instead of demanding an old value.",
+		Explain:     "Decides structural necessary conditions of reading RFC 7386: (R-MERGEHUNK, reader side) every hunk readMergeInto builds carries Metadata.Merge, a null becomes a void addition (delete), and patchAll selects merge strategy exactly for hunks with the flag (R-FWD driver), so the leaf patch replaces instead of demanding an old value. A fresh empty object enters a hunk only on the edge where the patch object has no members (RFC 7386 merges a non-empty patch object member by member).",
 		NotDecided:  "Conformance with the RFC pseudo-code on values (known divergence: a nested {} over an existing object replaces it).",
 		Assumptions: commonAssumptions,
 		Run: func(w *World, r *Report) {
@@ -396,7 +396,7 @@ func init() {
 
 func init() {
 	register(&PropSpec{ID: "C17",
-		Explain:     "Decides narrow structural necessary conditions of the v1 (package lib) round trip and of `diff empty iff Equals`: (R-FWD(lib)) every recursive patch call forwards the caller's own old/new values, strategy and remaining path, and patchAll hands each hunk's own fields and the strategy derived from its path; (R-OPTFWD(lib)) every comparison made by Equals/hashCode/diff code receives the caller's own metadata (three call sites that only matter for metadata combinations outside C17's quantifier are exempt by name, with the reason in the checker's table); (R-PROV(lib)) OldValues are drawn from the receiver side and NewValues from the argument side; (R-NOEMPTY(lib)) accumulated set/multiset hunks are emitted only when non-empty and the scalar diff is empty exactly on the Equals-true edge; (R-PATHFRESH(lib)) hunks own their paths.",
+		Explain:     "Decides narrow structural necessary conditions of the v1 (package lib) round trip and of `diff empty iff Equals`: (R-FWD(lib)) every recursive patch call forwards the caller's own old/new values, strategy and remaining path, and patchAll hands each hunk's own fields and the strategy derived from its path; (R-OPTFWD(lib)) every comparison made by Equals/hashCode/diff code receives the caller's own metadata (three call sites that only matter for metadata combinations outside C17's quantifier are exempt by name, with the reason in the checker's table); (R-PROV(lib)) OldValues are drawn from the receiver side and NewValues from the argument side; (R-NOEMPTY(lib)) accumulated set/multiset hunks are emitted only when non-empty and the scalar diff is empty exactly on the Equals-true edge; (R-PATHFRESH(lib)) hunks own their paths. (R-DELETEVOID(lib)) the object patch deletes a member only for a void result; (R-SCANERR(lib)) a bufio.Scanner is never used without consulting Err().",
 		NotDecided:  "Positional list diff arithmetic (reverse order when shrinking, -1 append), in-path metadata decoding on values, rejection of bad patches (not promised by C17).",
 		Assumptions: commonAssumptions,
 		Run: func(w *World, r *Report) {
@@ -415,7 +415,7 @@ func init() {
 			r.Floor("R-OPTFWD(lib)", 80)
 		}})
 	register(&PropSpec{ID: "C18",
-		Explain:     "Decides narrow structural necessary conditions of the v1 RFC renderings and readers: (R-PTR(lib)) writePointer writes a token for every path element or fails, keys reach the pointer only through jsonpointer.Escape; (R-PAIR(lib)) only test/remove/add ops, every remove right after a test of the same pointer and value; (R-PATHFRESH(lib)) hunks built by the readers own their paths; (R-JSONCODEC(lib)) one JSON encoding.",
+		Explain:     "Decides narrow structural necessary conditions of the v1 RFC renderings and readers: (R-PTR(lib)) writePointer writes a token for every path element or fails, keys reach the pointer only through jsonpointer.Escape; (R-PAIR(lib)) only test/remove/add ops, every remove right after a test of the same pointer and value; (R-PATHFRESH(lib)) hunks built by the readers own their paths; (R-JSONCODEC(lib)) one JSON encoding. (R-DELETEVOID(lib)) the object patch deletes a member only for a void result — v1 RenderMerge patches the empty document with nulls; (R-SCANERR(lib)).",
 		NotDecided:  "Equivalence with RFC 6902 / RFC 7386 evaluators on values; the deferred string-or-integer typing of pointer tokens at patch time.",
 		Assumptions: commonAssumptions,
 		Run: func(w *World, r *Report) {
